@@ -253,6 +253,9 @@ def classify(check, info, case):
         return "pointset.intersects-ignores-height-of-planar-operand"
     if check == "containsRegion" and info.get("obs") is True and za_ not in (None, 0) and kb == "polyline":
         return "polygon.containsRegion-ignores-height"
+    if op == "and" and rc in ("PointSetRegion", "PolylineRegion") and za_ not in (None, 0) and zb_ in (None, za_) and check in ("result.aabb", "result.sample", "result.contains", "result.distance") and "polyline" not in (ka, kb):
+        # touching polygons at height z: the point / line they share is rebuilt as a PointSetRegion / PolylineRegion, which live at z = 0
+        return "polygon.intersect-lower-dimensional-result-rebuilt-at-z0"
     if "polyline" in (ka, kb) and any(planar_nz) and ka != kb:
         if check == "intersects" and info.get("obs") is True:
             return "polygon-polyline.intersects-ignores-height"
